@@ -27,7 +27,7 @@ pub static QUIET_PANICS: std::sync::atomic::AtomicBool = std::sync::atomic::Atom
 
 pub fn quiet_hook() -> Box<dyn Fn(&std::panic::PanicHookInfo<'_>) + Sync + Send + 'static> {
     Box::new(|info| {
-        if !QUIET_PANICS.load(std::sync::atomic::Ordering::SeqCst) { eprintln!("harness panic: {info}"); }
+        if !QUIET_PANICS.load(std::sync::atomic::Ordering::SeqCst) { crate::ctx::note_panic(info); eprintln!("harness panic: {info}"); }
     })
 }
 
